@@ -117,6 +117,10 @@ def task_spec(draw, focus="timing"):
             units = draw(st.sampled_from([("ops",), ("ops",), ("docs",)]))
     else:
         spec["schedule"] = draw(st.sampled_from([None, None, "deterministic", "poisson"]))
+        if focus == "timing" and draw(st.integers(0, 3)) == 0:
+            # throttled by a custom scheduler alone (no target throughput): one request every k seconds per client
+            spec["schedule"] = "sim-fixed-interval"
+            spec["custom_interval"] = draw(st.sampled_from([1 / 8, 0.5, 2.0]))
         units = draw(st.sampled_from([("ops",), ("docs",)]))
     n_specs = draw(st.integers(1, 6))
     errors = focus == "timing" or draw(st.booleans())
